@@ -55,3 +55,50 @@ func VerifC43_activation() {
 		sym.Assert(errors.Is(e, util.ErrValueNotPresent), "unrecorded fork reports value-not-present")
 	}
 }
+
+// VerifC43_twoStates: the answer depends on the state the call is given, not on what an earlier
+// call in the same process saw: the fork is looked up against a first state (recorded at any
+// round) and then against a second, independent state where it is recorded at another round
+// or not at all (a competing branch, a rollback, the query state next to the block state).
+func VerifC43_twoStates() {
+	b1 := &block.Block{}
+	b1.Round = sym.I64("blockRound1")
+	b2 := &block.Block{}
+	b2.Round = sym.I64("blockRound2")
+	sym.Assume(b1.Round >= 0 && b1.Round < math.MaxInt64)
+	sym.Assume(b2.Round >= 0 && b2.Round < math.MaxInt64)
+	s1, _ := symstate.Balances(b1, nil)
+	s2, _ := symstate.Balances(b2, nil)
+	round1 := sym.I64("forkRound1")
+	f1 := cstate.NewHardFork("apollo", round1)
+	if _, err := s1.InsertTrieNode(f1.GetKey(), f1); err != nil {
+		sym.Fail("insert hard fork into the first state")
+	}
+	recorded2 := sym.Bool("recorded2")
+	round2 := sym.I64("forkRound2")
+	if recorded2 {
+		f2 := cstate.NewHardFork("apollo", round2)
+		if _, err := s2.InsertTrieNode(f2.GetKey(), f2); err != nil {
+			sym.Fail("insert hard fork into the second state")
+		}
+	}
+	before1, after1 := 0, 0
+	_ = cstate.WithActivation(s1, "apollo",
+		func() error { before1++; return nil },
+		func() error { after1++; return nil })
+	sym.Assert((b1.Round < round1) == (before1 == 1) && before1+after1 == 1, "first state: branch chosen by its own recorded round")
+	before2, after2 := 0, 0
+	_ = cstate.WithActivation(s2, "apollo",
+		func() error { before2++; return nil },
+		func() error { after2++; return nil })
+	sym.Assert(before2+after2 == 1, "second state: exactly one branch runs")
+	if recorded2 {
+		sym.Cover("second-recorded")
+		sym.Assert((b2.Round < round2) == (before2 == 1), "second state: branch chosen by the round recorded in that state, not by an earlier lookup")
+		r, e := cstate.GetRoundByName(s2, "apollo")
+		sym.Assert(e == nil && r == round2, "second state: its own recorded round reads back")
+	} else {
+		sym.Cover("second-not-recorded")
+		sym.Assert(before2 == 1, "second state: a fork never recorded there keeps the pre-fork rules")
+	}
+}
